@@ -247,6 +247,15 @@ func (x *Exec) verify(fn *ssa.Function, c *Contract) {
 			x.inputTerms = append(x.inputTerms, t.S)
 		}
 	}
+	if len(c.ParamNames) == len(fn.Params) {
+		for i, n := range c.ParamNames {
+			if n != "_" && n != fn.Params[i].Name() {
+				if _, have := st.F(fr).names[n]; !have {
+					st.F(fr).names[n] = args[i] // the contract's name for a parameter the code has renamed
+				}
+			}
+		}
+	}
 	for _, fv := range fn.FreeVars {
 		v := st.freshVal("fv."+fv.Name(), fv.Type())
 		if v.K == KPtr {
@@ -327,6 +336,11 @@ func (x *Exec) verify(fn *ssa.Function, c *Contract) {
 				rs := fn.Signature.Results()
 				if n := rs.At(i).Name(); n != "" && n != "_" {
 					e2.vars[n] = r
+				}
+				if i < len(c.ResultNames) && c.ResultNames[i] != "_" {
+					if _, clash := e2.vars[c.ResultNames[i]]; !clash {
+						e2.vars[c.ResultNames[i]] = r
+					}
 				}
 			}
 			if len(res) == 1 {
